@@ -117,12 +117,17 @@ def _full(lg, res, op, k):
     for tup, e in zip(zip(*[o.tolist() for o in operands]), exp.tolist()):
         res.sig((op, 8, tup, e))
     bps = [codes_to_bp(o) for o in operands]
+    keep_bps = [b.copy() for b in bps]; keep_ops = [o.copy() for o in operands]
     out = np.full((3, (n + 7) // 8), 0xA5, dtype=np.uint8)
     r = getattr(lg, 'bp8v_' + op)(out, *bps)
+    if any(not np.array_equal(a, b) for a, b in zip(bps, keep_bps)):
+        res.violation(f'C12/full/{op}/bp8v-operand-modified/k{k}', {'task': list(task)}, f'bp8v_{op} modified one of its operands')
     if r is not out: res.violation(f'C12/full/{op}/bp8v-return', {'task': list(task)}, 'bp8v operator did not return its out argument')
     got_bp = bp_to_codes(out, n)
     _cmp(res, task, f'bp8v_{op}/k{k}', got_bp, exp, operands)
     got_mv = mv_call(lg, op, operands) if (k >= 2 or op == 'not') else None
+    if any(not np.array_equal(a, b) for a, b in zip(operands, keep_ops)):
+        res.violation(f'C12/full/{op}/mv-operand-modified/k{k}', {'task': list(task)}, f'mv_{op} modified one of its operands')
     if got_mv is not None:
         _cmp(res, task, f'mv_{op}/k{k}', got_mv, exp, operands)
         _cmp(res, task, f'mv-vs-bp/{op}/k{k}', got_mv, got_bp, operands, exact=True)
